@@ -169,6 +169,20 @@ KF_C01_1(X) ==
                nb == NextBlockU(X.t.pre, r.u)
            IN  r.off + r.len = b.n /\ (nb = 0 \/ BlockByU(X.t.pre, nb).k # "code")
 
+\* KF-C01-2: insertion at offset x of a block, deletion of [x, end of the block) and
+\* another insertion at the block's end.  When the first insertion leaves the tail
+\* as a block of its own (patch with a label / terminator, or no function tables)
+\* the deletion removes that whole block, delete() returns None and the next
+\* modification of the same original block trips `assert isinstance(actual_block,
+\* ByteBlock)` in _apply_modifications.
+KF_C01_2(X) ==
+  /\ X.t.exc = "AssertionError"
+  /\ \E d \in Range(X.t.reqs) :
+        LET b == BlockByU(X.t.pre, d.u)
+        IN  /\ d.op = "del" /\ d.off > 0 /\ d.len > 0 /\ d.off + d.len = b.n
+            /\ \E r1 \in Range(X.t.reqs) : r1.op \in {"ins", "rep"} /\ r1.u = d.u /\ r1.off + r1.len = d.off
+            /\ \E r3 \in Range(X.t.reqs) : r3.op = "ins" /\ r3.u = d.u /\ r3.off = b.n
+
 \* KF-C09-1: a patch names a label whose block an earlier request of the same
 \* batch deleted entirely: Symbol.referent is None while the reference is
 \* indirect, and the assembler reads it directly.
@@ -180,7 +194,7 @@ KF_C09_1(X) ==
            IN  /\ nm # ""
                /\ \E b \in Range(AllBlocks(X.t.pre)) :
                      /\ (nm \in Range(b.ss) \/ nm \in Range(b.es))
-                     /\ WholeDeleted(X.t.pre, X.t.reqs, b.u)
+                     /\ (WholeDeleted(X.t.pre, X.t.reqs, b.u) \/ AllUnitsDeleted(X.t.pre, X.t.reqs, b.u))
                      /\ b.p < BlockByU(X.t.pre, r.u).p
 
 Explained(X, K, clause, e) ==
@@ -213,12 +227,25 @@ KfTags(X, K, clause) ==
                 /\ missing \subseteq {x.exp : x \in tm}
                 /\ extra \subseteq {x.moved : x \in tm}
              THEN {"KF-C02-2"} ELSE {}
+    \* KF-C02-2 seen through the CFG: a branch to the moved label lands behind the later patches
+    [] clause = "C03_BranchCall" ->
+         LET tm == TrailingMoved(X)
+             obs == ByType(K.obs, {"Branch", "Call"})
+             missing == K.exp.bc \ obs
+             extra == obs \ K.exp.bc
+             movedOf(m) == {[m EXCEPT !.d = <<"i", x.moved.s, x.moved.p>>] :
+                              x \in {y \in tm : m.d = <<"i", y.exp.s, y.exp.p>>}}
+         IN  IF /\ tm # {} /\ missing # {}
+                /\ \A m \in missing : movedOf(m) \cap extra # {}
+                /\ extra \subseteq UNION {movedOf(m) : m \in missing}
+             THEN {"KF-C02-2"} ELSE {}
     [] clause = "C03_Fallthrough" ->
          ExplainAll(X, K, clause, SDiff(K.exp.ft, ByType(K.obs, {"Fallthrough"})))
     [] clause = "C03_Returns" ->
          ExplainAll(X, K, clause, SDiff(K.exp.ret, ByType(K.obs, {"Return"})))
     [] clause \in {"C01_Completes", "C03_Completes", "C05_Completes"} ->
          IF KF_C01_1(X) THEN {"KF-C01-1"}
+         ELSE IF KF_C01_2(X) THEN {"KF-C01-2"}
          ELSE IF KF_C09_1(X) /\ X.t.exc = "UnsupportedAssemblyError" THEN {"KF-C09-1"} ELSE {}
     [] OTHER -> {}
 =============================================================================
